@@ -64,6 +64,15 @@ def literal_trees():
         out.append(sym.Product((sym.Sum((a, L(k1))), sym.Sum((b, L(k2))))))
         out.append(sym.Power(sym.Sum((a, L(k1))), L(abs(k2) % 4)))
         out.append(sym.Comparison(sym.Sum((a, L(k1))), '<', sym.Sum((a, L(k2)))))
+        if abs(k2) <= 3 and abs(k1) <= 4:
+            # powers of literals, also with negative / computed exponents (integer base: 2**(-1) == 0 in Fortran)
+            out.append(sym.Power(L(k1), L(k2)))
+            out.append(sym.Power(L(k1), sym.Sum((L(1), L(k2 - 1)))))
+            out.append(sym.Power(L(k1), sym.Product((-1, L(abs(k2))))))
+            out.append(sym.Power(sym.Sum((L(k1), L(1))), sym.Sum((L(k2), sym.Product((-1, L(1)))))))
+            out.append(sym.Power(a, L(k2)))
+            out.append(sym.Product((L(k1), sym.Power(L(2), L(k2)))))
+            out.append(sym.Power(sym.FloatLiteral('2.0'), L(k2)))
         out.append(sym.Comparison(sym.Product((L(k1), a)), '==', sym.Product((L(k2), a))))
     return out
 
@@ -77,6 +86,8 @@ def build_family(tier):
                                               binops=['add', 'sub', 'mul', 'div'], unops=['neg'])]
     fam += [('int', t) for t in literal_trees()]
     fam += [('int', t) for t in X.nary_sign_trees(ileaves)]
+    fam += [('int', t) for t in X.power_towers(ileaves)]
+    fam += [('int', t) for t in X.pyop_trees([ileaves[0], ileaves[1], ileaves[3]])[::3]]
     rleaves = [X.V('x', X.REAL_T), X.V('y', X.REAL_T), X.V('z', X.REAL_T), sym.FloatLiteral('2.0'), sym.IntLiteral(2)]
     fam += [('real', t) for t in X.arith_trees(rleaves, 2, binops=['add', 'sub', 'mul', 'div', 'padd'], unops=['neg'])]
     fam += [('real', t) for t in X.arith_trees([rleaves[0], sym.FloatLiteral('1.5'), sym.FloatLiteral('0.5')], 2,
@@ -233,7 +244,7 @@ def run(tier, seed):
                 'with symbolic literal values')
     ctx.functions = ['loki.expression.symbolic.simplify / SimplifyMapper', 'flatten_expr', 'distribute_product', 'distribute_quotient',
                      'sum_literals', 'mul_literals', 'div_literals', 'collect_coefficients', 'SimplifyMapper.map_comparison/map_logical_*']
-    ctx.bounds = {'int_vars': f'|v|<={BOUND}', 'real_vars': f'|v|<={BOUND} (mathematical reals)', 'int_exponent': '0..3',
+    ctx.bounds = {'int_vars': f'|v|<={BOUND}', 'real_vars': f'|v|<={BOUND} (mathematical reals)', 'int_exponent': '-3..3',
                   'literal_values': '-3..6 (i), symbolic -8..8 (ii)', 'outside': 'overflow, FP rounding (reals are exact here)'}
     ctx.assumptions = ['non-zero divisors', 'real arithmetic is exact (rounding differences of re-association are not violations)']
     FAMILY = build_family(tier)
